@@ -288,6 +288,7 @@ def _fock_count_cases(item, cfg, cutoff, n, out):
                 rec["cond_err"] = [float(np.max(np.abs(mu_c - mu_p))), float(np.max(np.abs(V_c - V_p)))]
             pm = _own_reduce(post, n, asc)
             rec["vac_pop"] = float(np.real(pm[tuple([0, 0] * k)]))
+            rec["post_trace"] = float(np.real(res.state.trace()))
         except Exception as e:  # noqa
             rec["error"] = "%s: %s" % (type(e).__name__, str(e)[:200])
             rec["tb"] = traceback.format_exc()[-600:]
@@ -331,6 +332,7 @@ def c06(chk):
                        "(state documented as not updated); bosonic rejects photon counting; Fock accepts shots=1 only"]
     plans = [(3, 1, "e3", [("gaussian", None, ("dyne", "layout")), ("bosonic", None, ("dyne", "layout"))]),
              (3, 0, "e3", [("fock", 7, ("count",))]),
+             (3, 0, "p3", [("fock", 7, ("count",))]),          # a pure pre-measurement state: the simulator holds a ket
              (2, 0, "e2", [("fock", 11, ("dyne", "count")), ("fockmixed", 9, ("layout",)), ("gaussian", None, ("dyne", "layout")), ("bosonic", None, ("dyne",))]),
              (3, 0, "x3", [("gaussian", None, ("dyne", "layout")), ("fock", 8, ("layout",))])]
     if tier != "quick":
@@ -497,3 +499,6 @@ def judge(chk, sc, cfg, it, rec, det0):
             chk.violation("ConditionalState", dict(f, tuple_len=len(ms), ascending=ms == asc), dict(det, err=rec["cond_err"], slack=slack))
         if abs(rec["vac_pop"] - 1) > 1e-9:
             chk.violation("MeasuredModeReset", dict(f, tuple_len=len(ms)), dict(det, vacuum_population=rec["vac_pop"]))
+        # the conditional state is a normalised state (the vacuum population above is relative to it)
+        if "post_trace" in rec and abs(rec["post_trace"] - 1) > 1e-6:
+            chk.violation("ConditionalStateNormalised", dict(f, tuple_len=len(ms)), dict(det, trace=rec["post_trace"], outcome_probability=rec.get("prob_forced")))
